@@ -75,13 +75,17 @@ type Rec struct {
 }
 
 type Op struct {
-	Kind  string `json:"kind"` // set|expire|merge|gc|reload|alertgc|stage|api|tick
+	Kind  string `json:"kind"` // set|expire|merge|gc|reload|alertgc|stage|api|tick|imutes
 	Dt    int64  `json:"dt"`
 	Sil   *Sil   `json:"sil,omitempty"`
 	ID    string `json:"id,omitempty"`
 	Batch []Rec  `json:"batch,omitempty"`
 	LS    []int  `json:"ls,omitempty"`    // label-set indices (alertgc, stage)
 	Mutes []int  `json:"mutes,omitempty"` // label sets probed with Silencer.Mutes after the op, in this order
+	Point string `json:"point,omitempty"` // imutes: the yield point of Silencer.Mutes at which Inj runs
+	Inj   []Op   `json:"inj,omitempty"`   // imutes: store operations injected into the call (dt ignored)
+	Warm  bool   `json:"warm,omitempty"`  // imutes: an ordinary Mutes for the label set first
+	Sel   int    `json:"sel,omitempty"`   // imutes: draw used to choose Point when it is empty
 	Now   int64  `json:"now,omitempty"`   // observed
 	Out   string `json:"out,omitempty"`   // observed (informational)
 }
@@ -119,8 +123,21 @@ var (
 		{{{2, "b", ""}, {1, "a", ".*"}}},
 	}
 	peerIDs = []string{"p1", "p2", "p3"}
-	allIDs  = []string{"p1", "p2", "p3", "pbad"}
+	allIDs  = []string{"p1", "p2", "p3", "pbad", "q1", "q2", "q3", "q4"}
 )
+
+// q1..q4: further peer-created ids (used by injected merges), one matcher-set list each
+func qSets(id string) [][]Mat {
+	switch id {
+	case "q1":
+		return setPool[0] // a=1
+	case "q2":
+		return setPool[2] // a=~1|2
+	case "q3":
+		return setPool[4] // ü=1
+	}
+	return setPool[5] // a=1 OR b=2
+}
 
 // matcher sets of a peer-created id: a fixed function of the id (versions of one id share their matchers)
 func peerSets(id string) [][]Mat {
@@ -578,13 +595,132 @@ func (r *runner) recPB(v Rec) *pb.MeshSilence {
 	return m
 }
 
-func (r *runner) exec(i int) {
-	op := &r.c.Ops[i]
-	time.Sleep(time.Duration(op.Dt))
-	now := time.Now().UnixNano()
-	op.Now = now
+var ipoints = map[string]string{
+	"mutes:after-cache-read":   "IAfterCacheRead",
+	"mutes:after-version-read": "IAfterVersionRead",
+	"mutes:before-old-query":   "IAfterVersionRead",
+	"mutes:after-old-query":    "IAfterOldQuery",
+	"mutes:before-new-query":   "IAfterOldQuery",
+	"mutes:after-new-query":    "IAfterNewQuery",
+	"mutes:before-cache-write": "IAfterNewQuery",
+}
+var yieldNames = []string{"mutes:after-cache-read", "mutes:after-version-read", "mutes:before-old-query", "mutes:after-old-query",
+	"mutes:before-new-query", "mutes:after-new-query", "mutes:before-cache-write"}
+
+// interrupted runs one Silencer.Mutes call for a label set and, at the chosen yield point of that call (between two of
+// its atomic steps, no lock held), executes the injected store operations on the calling goroutine; then Mutes finishes.
+// If the call never reaches the point (e.g. no Query of cached ids on this path) the operations run right after it.
+func (r *runner) interrupted(op *Op, now int64) {
+	ls := lsets[op.LS[0]]
+	fp := ls.Fingerprint()
+	if op.Warm {
+		r.mutes(op.LS[0], now) // bring the entry up to date first (recorded as an ordinary Mutes)
+	}
+	before, judgedBefore := r.expect(ls, now)
+	{
+		_, cv, cids := r.sl.VerifCacheEntry(fp)
+		upto := cv == r.s.Version()
+		if op.Point == "" {
+			// choose among the yield points this call will pass (by the generator's draw op.Sel)
+			reach := []string{"mutes:after-cache-read", "mutes:after-version-read"}
+			if len(cids) > 0 {
+				reach = append(reach, "mutes:before-old-query", "mutes:after-old-query")
+			}
+			if !upto {
+				reach = append(reach, "mutes:before-new-query", "mutes:after-new-query")
+			}
+			if !upto || len(cids) > 0 {
+				reach = append(reach, "mutes:before-cache-write")
+			}
+			op.Point = reach[op.Sel%len(reach)]
+		}
+		switch {
+		case upto && len(cids) == 0:
+			r.tags["imutes-start/fast-path"]++
+		case upto:
+			r.tags["imutes-start/up-to-date-with-cached-ids"]++
+		case len(cids) == 0:
+			r.tags["imutes-start/stale-no-cached-ids"]++
+		default:
+			r.tags["imutes-start/stale-with-cached-ids"]++
+		}
+	}
+	fired := false
+	var opTerms, outTerms []string
+	inject := func() {
+		for j := range op.Inj {
+			o, y := r.storeOp(&op.Inj[j], now)
+			opTerms = append(opTerms, o)
+			outTerms = append(outTerms, y)
+			r.tags["inject/"+op.Inj[j].Kind]++
+		}
+	}
+	silence.SetVerifYield(func(point string, a ...any) {
+		if fired || point != op.Point || len(a) == 0 || a[0] != any(fp) {
+			return
+		}
+		fired = true
+		if time.Now().UnixNano() != now {
+			r.t.Fatalf("clock moved inside Mutes")
+		}
+		inject()
+	})
+	m := marker.NewAlertMarker()
+	muted := r.sl.Mutes(marker.WithContext(context.Background(), m), ls)
+	silence.SetVerifYield(nil)
+	by := m.Status(fp).SilencedBy
+	ids := make([]string, len(by))
+	for j, id := range by {
+		ids[j] = r.cid(id)
+	}
+	_, cver, cids := r.sl.VerifCacheEntry(fp)
+	cc := make([]string, len(cids))
+	for j, id := range cids {
+		cc[j] = r.cid(id)
+	}
+	mok := vh.App("MOk", vh.Bool(muted), vh.ListOf(ids, vh.Str))
+	if !fired {
+		r.tags["imutes/point-not-reached"]++
+		r.add(now, vh.App("CMutes", coqLabels(ls)), vh.App("XMutes", mok, vh.Z(int64(cver)), vh.ListOf(cc, vh.Str)))
+		r.judgeIDs("Mutes", ls, ids, muted, true, now)
+		for j := range op.Inj {
+			o, y := r.storeOp(&op.Inj[j], now)
+			r.add(now, vh.App("CStore", o), vh.App("XStore", y))
+		}
+		return
+	}
+	r.tags["imutes/"+op.Point]++
+	r.add(now, vh.App("CMutesI", coqLabels(ls), ipoints[op.Point], vh.List(opTerms)),
+		vh.App("XMutesI", mok, vh.Z(int64(cver)), vh.ListOf(cc, vh.Str), vh.List(outTerms)))
+	// the interrupted call itself: bracketed by the stores before and after the injected operations
+	after, judgedAfter := r.expect(ls, now)
+	if muted != (len(by) > 0) {
+		r.violate("verdict-and-marker-disagree", fmt.Sprintf("interrupted Mutes(%v) returned %v but marked %v", ls, muted, ids))
+	}
+	if judgedBefore && judgedAfter {
+		for _, id := range ids {
+			if !slicesContains(before, id) && !slicesContains(after, id) {
+				r.violate("interrupted-mutes-marked-silence-never-active", fmt.Sprintf("Mutes(%v) at %d interrupted at %s marked %s; before %v, after %v", ls, now, op.Point, id, before, after))
+			}
+		}
+		for _, id := range before {
+			if slicesContains(after, id) && !slicesContains(ids, id) {
+				r.violate("interrupted-mutes-missed-silence-active-throughout", fmt.Sprintf("Mutes(%v) at %d interrupted at %s did not mark %s, active and matching before and after the injected operations", ls, now, op.Point, id))
+			}
+		}
+		g := strings.Join(sortedCopy(ids), ",")
+		if g != strings.Join(before, ",") && g != strings.Join(after, ",") {
+			r.tags["imutes/verdict-mixes-both-stores"]++
+		}
+		if strings.Join(before, ",") != strings.Join(after, ",") {
+			r.tags["imutes/injection-changed-verdict"]++
+		}
+	}
+}
+
+// storeOp executes one store operation (set | expire | merge | gc) and returns the model's op term and output term.
+func (r *runner) storeOp(op *Op, now int64) (string, string) {
 	ctx := context.Background()
-	r.tags["op/"+op.Kind]++
 	switch op.Kind {
 	case "set":
 		sil := &pb.Silence{Id: r.rid(op.Sil.ID), MatcherSets: pbSets(op.Sil.Sets), Comment: op.Sil.Comment, CreatedBy: "u"}
@@ -616,7 +752,7 @@ func (r *runner) exec(i int) {
 			out = vh.App("RSetOk", vh.Str(r.cid(sil.Id)), "[]")
 		}
 		op.Out = out
-		r.add(now, vh.App("CStore", vh.App("OSet", before, vh.Str(fresh), "0")), vh.App("XStore", out))
+		return vh.App("OSet", before, vh.Str(fresh), "0"), out
 	case "expire":
 		err := r.s.Expire(ctx, r.rid(op.ID))
 		out := "(RExpireOk [])"
@@ -625,7 +761,7 @@ func (r *runner) exec(i int) {
 			r.tags["expire-err"]++
 		}
 		op.Out = out
-		r.add(now, vh.App("CStore", vh.App("OExpire", vh.Str(op.ID))), vh.App("XStore", out))
+		return vh.App("OExpire", vh.Str(op.ID)), out
 	case "merge":
 		var buf bytes.Buffer
 		var recs []*pb.MeshSilence
@@ -699,7 +835,7 @@ func (r *runner) exec(i int) {
 			}
 		}
 		op.Out = out
-		r.add(now, vh.App("CStore", vh.App("OMerge", vh.ListOf(recs, r.coqWire), vh.ListOf(order, vh.Str), vh.Z(int64(len(b))))), vh.App("XStore", out))
+		return vh.App("OMerge", vh.ListOf(recs, r.coqWire), vh.ListOf(order, vh.Str), vh.Z(int64(len(b)))), out
 	case "gc":
 		n, err := r.s.GC()
 		if n > 0 {
@@ -707,7 +843,25 @@ func (r *runner) exec(i int) {
 		}
 		out := vh.App("RGC", vh.Nat(n), vh.Bool(err != nil))
 		op.Out = out
-		r.add(now, "(CStore OGC)", vh.App("XStore", out))
+		return "OGC", out
+	}
+	r.t.Fatalf("not a store op: %s", op.Kind)
+	return "", ""
+}
+
+func (r *runner) exec(i int) {
+	op := &r.c.Ops[i]
+	time.Sleep(time.Duration(op.Dt))
+	now := time.Now().UnixNano()
+	op.Now = now
+	ctx := context.Background()
+	r.tags["op/"+op.Kind]++
+	switch op.Kind {
+	case "set", "expire", "merge", "gc":
+		opTerm, outTerm := r.storeOp(op, now)
+		r.add(now, vh.App("CStore", opTerm), vh.App("XStore", outTerm))
+	case "imutes":
+		r.interrupted(op, now)
 	case "reload":
 		var buf bytes.Buffer
 		if _, err := r.s.Snapshot(&buf); err != nil {
@@ -841,11 +995,15 @@ type genState struct {
 	g     *vh.Rand
 	pMute int   // probability (of 8) that a label set is probed after an op
 	seen  []Rec // records delivered or derived so far (for duplicates / late / out-of-order redelivery)
+	base  int64 // instant at which injected operations will run
 }
 
-func (r *runner) genOp(gs *genState, maxDt bool) Op {
+func (r *runner) genOp(gs *genState, inject bool) Op {
 	g := gs.g
 	now := time.Now().UnixNano()
+	if inject {
+		now = gs.base
+	}
 	sils := r.stored()
 	op := Op{}
 	// time step: usual steps, or exactly onto a boundary (start / end / expiry of a stored silence) -1 / 0 / +1 ns
@@ -857,6 +1015,9 @@ func (r *runner) genOp(gs *genState, maxDt bool) Op {
 			op.Dt = b - now
 		}
 	}
+	if inject {
+		op.Dt = 0 // lands inside a Mutes call: same clock value
+	}
 	at := now + op.Dt
 	existing := func() (*pb.Silence, bool) {
 		if len(sils) == 0 {
@@ -864,7 +1025,11 @@ func (r *runner) genOp(gs *genState, maxDt bool) Op {
 		}
 		return vh.Pick(g, sils), true
 	}
-	switch k := g.Intn(20); {
+	kk := g.Intn(24)
+	if inject {
+		kk = g.Intn(16)
+	}
+	switch k := kk; {
 	case k < 4: // create
 		op.Kind = "set"
 		s := &Sil{Sets: pickSets(g), End: at + vh.Pick(g, []int64{int64(time.Minute), int64(time.Hour), int64(3 * time.Hour), 1})}
@@ -982,12 +1147,60 @@ func (r *runner) genOp(gs *genState, maxDt bool) Op {
 		for j := 0; j < n; j++ {
 			op.LS = append(op.LS, g.Intn(len(lsets)))
 		}
-	default:
+	case k < 20:
 		if g.Chance(1, 2) {
 			op.Kind = "api"
 		} else {
 			op.Kind = "tick"
 		}
+	default: // one Mutes call with store operations landing between its atomic steps
+		op.Kind = "imutes"
+		li := g.Intn(len(lsets))
+		op.LS = []int{li}
+		if g.Chance(1, 4) {
+			op.Point = vh.Pick(g, yieldNames)
+		} else {
+			op.Sel = g.Intn(840) // the point is chosen at run time among those the call will pass
+		}
+		op.Warm = g.Chance(1, 3)
+		n := 1 + g.Intn(2)
+		for j := 0; j < n; j++ {
+			if g.Chance(1, 2) {
+				// a new silence for exactly this alert (active now, or pending), created locally or arriving by gossip
+				var match [][][]Mat
+				for _, sets := range setPool {
+					if ok, _ := refMatches(pbSets(sets), lsets[li]); ok {
+						match = append(match, sets)
+					}
+				}
+				if g.Chance(1, 2) {
+					s := &Sil{Sets: vh.Pick(g, match), End: at + int64(time.Hour)}
+					if g.Chance(1, 4) {
+						s.Start = at + int64(time.Minute)
+					}
+					op.Inj = append(op.Inj, Op{Kind: "set", Sil: s})
+				} else {
+					id := vh.Pick(g, []string{"q1", "q2", "q3", "q4"}) // may or may not match this alert
+					v := Rec{ID: id, Sets: qSets(id), Start: at - int64(time.Minute), End: at + int64(time.Hour), Upd: at - 1}
+					v.Exp = v.End + int64(r.ret)
+					op.Inj = append(op.Inj, Op{Kind: "merge", Batch: []Rec{v}})
+					gs.seen = append(gs.seen, v)
+				}
+			} else {
+				gs.base = at
+				op.Inj = append(op.Inj, r.genOp(gs, true))
+			}
+		}
+		// afterwards (quiescent) every label set is probed
+		op.Mutes = nil
+		for j := range lsets {
+			op.Mutes = append(op.Mutes, j)
+		}
+		vh.Shuffle(g, op.Mutes)
+		return op
+	}
+	if inject {
+		return op
 	}
 	for j := range lsets {
 		if g.Intn(8) < gs.pMute {
@@ -1098,7 +1311,7 @@ func TestCheck(t *testing.T) {
 			run.Count("source", "generated")
 		}
 	}
-	if err := run.Finish("one real instance (silence.Silences + Silencer + MuteStage + api/v2 GET /alerts over a mem.Alerts provider) under synctest virtual time; histories of Set (create / in-place edit / history rewrite) / Expire / Merge of crafted peer batches (newer, older, duplicated, out-of-order versions of stored ids, peer-created ids, legacy-format and invalid records) / GC / restart from snapshot / alert GC / MuteStage batches / API status, with time steps onto start / end / expiry boundaries -1/0/+1 ns; after every op a random subset of 4 label sets (one with a UTF-8 name) is probed with Mutes; non-trivial = both verdicts occur and the history has a merge, an expire or an in-place edit"); err != nil {
+	if err := run.Finish("one real instance (silence.Silences + Silencer + MuteStage + api/v2 GET /alerts over a mem.Alerts provider) under synctest virtual time; histories of Set (create / in-place edit / history rewrite) / Expire / Merge of crafted peer batches (newer, older, duplicated, out-of-order versions of stored ids, peer-created ids, legacy-format and invalid records) / GC / restart from snapshot / alert GC / MuteStage batches / API status, with time steps onto start / end / expiry boundaries -1/0/+1 ns; interrupted Mutes calls (1-2 store operations injected at a yield point between the atomic steps of Silencer.Mutes: after the cache read / Version() read, around each Query, before the cache write; entry up to date or stale, with or without cached ids, injected silence matching or not) followed by quiescent Mutes for every label set; after every op a random subset of 4 label sets (one with a UTF-8 name) is probed with Mutes; non-trivial = both verdicts occur and the history has a merge, an expire or an in-place edit"); err != nil {
 		t.Fatal(err)
 	}
 }
